@@ -185,36 +185,39 @@ def fbNum (mode : Nat) : Num FB where
   powNat a n :=
     let nf := Float.ofNat n
     let v := Float.pow a.v nf
+    -- the bound is first order: it means something only while the relative perturbation of the result is small
     let e1 := if a.err == 0.0 then 0.0
+      else if nf * a.err > 0.5 * a.v.abs then fInf
       else 2.0 * nf * Float.pow a.v.abs (nf - 1.0) * a.err + Float.pow a.err nf
     FB.round v (e1 + fTiny) [a]
   rpow x y :=
     let v := Float.pow x.v y.v
     let d := x.v - x.err
+    let rel := if d > 0.0 then y.v.abs * x.err / d + (Float.log x.v).abs * y.err else fInf
     let e1 := if x.err == 0.0 && y.err == 0.0 then 0.0
-      else if d > 0.0 then 2.0 * v.abs * (y.v.abs * x.err / d + (Float.log x.v).abs * y.err)
-      else fInf
+      else if d > 0.0 && rel ≤ 0.5 then 2.0 * v.abs * rel
+      else fInf      -- the exponent (or the base) is known so badly that the result may be off by a factor: no first-order bound
     pure (FB.round v (e1 + 2.0 * uRound * v.abs + fTiny) [x, y])
   sqrt x :=
     let v := Float.sqrt x.v
     let d := x.v - x.err
     let e1 := if x.err == 0.0 then 0.0
-      else if d > 0.0 then x.err / (2.0 * Float.sqrt d) else fInf
+      else if d > 0.0 && x.err ≤ 0.5 * x.v then x.err / (2.0 * Float.sqrt d) else fInf
     pure (FB.round v e1 [x])
   cbrt x :=
     let v := Float.cbrt x.v
     let d := x.v.abs - x.err
     let e1 := if x.err == 0.0 then 0.0
-      else if d > 0.0 then x.err / (3.0 * Float.cbrt (d * d)) else fInf
+      else if d > 0.0 && x.err ≤ 0.5 * x.v.abs then x.err / (3.0 * Float.cbrt (d * d)) else fInf
     pure (FB.round v (e1 + 2.0 * uRound * v.abs) [x])
   logb x b :=
     let lx := Float.log x.v
     let lb := Float.log b.v
     let dx := x.v - x.err
     let db := b.v - b.err
-    let elx := (if x.err == 0.0 then 0.0 else if dx > 0.0 then x.err / dx else fInf)
+    let elx := (if x.err == 0.0 then 0.0 else if dx > 0.0 && x.err ≤ 0.5 * x.v then x.err / dx else fInf)
       + 2.0 * uRound * lx.abs + uRound
-    let elb := (if b.err == 0.0 then 0.0 else if db > 0.0 then b.err / db else fInf)
+    let elb := (if b.err == 0.0 then 0.0 else if db > 0.0 && b.err ≤ 0.5 * b.v then b.err / db else fInf)
       + 2.0 * uRound * lb.abs + uRound
     let v := lx / lb
     let d := lb.abs - elb
